@@ -8,7 +8,7 @@ from typing import List
 
 from sqlparse import keywords, lexer, tokens
 
-TEXT = 'a;c\n'   # content is irrelevant to the loop (it only slices the text)
+TEXT = 'a \tb'    # the loop must yield the matched slice verbatim, whatever the rule's type (blank + tab inside matches)
 
 
 class _M:
@@ -56,7 +56,7 @@ def loop(n: int, verdicts: List[int]) -> int:
         return rx
     lx = lexer.Lexer()
     lx._keywords = [{'A': tokens.Keyword}]
-    lx._SQL_REGEX = [(mk(0), tokens.Punctuation), (mk(1), keywords.PROCESS_AS_KEYWORD)]
+    lx._SQL_REGEX = [(mk(0), tokens.Keyword), (mk(1), keywords.PROCESS_AS_KEYWORD)]
     try:
         out = list(lx.get_tokens(text))
     except Exception:
@@ -75,7 +75,7 @@ def loop(n: int, verdicts: List[int]) -> int:
             if w > 0:
                 v = text[pos:pos + w]
                 if k == 0:
-                    ref.append((tokens.Punctuation, v))
+                    ref.append((tokens.Keyword, v))
                 else:
                     ref.append((tokens.Keyword if v.upper() == 'A' else tokens.Name, v))
                 pos += w
